@@ -38,6 +38,7 @@ type qtQueries struct {
 	mds     []int
 	boxes   [][4]int
 	filters [][2]int
+	noQuery bool
 }
 
 func accept(f [2]int) quadtree.FilterFunc {
@@ -50,9 +51,19 @@ func accept(f [2]int) quadtree.FilterFunc {
 // qtObserve fills the contents, node walk and query rows of an event from the real tree.
 func qtObserve(q *quadtree.Quadtree, e *qtEv, qs *qtQueries, bufs bool) {
 	e.Items, e.Nodes, e.Finds, e.KNN, e.Inb = [][3]int{}, [][7]int{}, [][]int{}, [][]int{}, [][]int{}
-	for _, x := range q.InBound(nil, orb.Bound{Min: orb.Point{-1e9, -1e9}, Max: orb.Point{1e9, 1e9}}) {
-		xp := x.(*qtPtr)
-		e.Items = append(e.Items, [3]int{xp.id, int(xp.p[0]), int(xp.p[1])})
+	if qs.noQuery {
+		// contents from the node walk only: no query touches the tree (C19 compares the walk before/after)
+		q.VerifWalk(func(path []int, v orb.Pointer, cell orb.Bound) {
+			if v != nil {
+				vp := v.(*qtPtr)
+				e.Items = append(e.Items, [3]int{vp.id, int(vp.p[0]), int(vp.p[1])})
+			}
+		})
+	} else {
+		for _, x := range q.InBound(nil, orb.Bound{Min: orb.Point{-1e9, -1e9}, Max: orb.Point{1e9, 1e9}}) {
+			xp := x.(*qtPtr)
+			e.Items = append(e.Items, [3]int{xp.id, int(xp.p[0]), int(xp.p[1])})
+		}
 	}
 	q.VerifWalk(func(path []int, v orb.Pointer, cell orb.Bound) {
 		// cell edges in units of 1/1024 (exact: the generators keep the tree shallower than 10 halvings of
